@@ -550,7 +550,22 @@ def _purity(chk: Check, m, q: str, h: ast.ExceptHandler) -> None:
     e = h.name
     key = f"{m.name.replace('django_components.', '')}:{q}:except-purity"
     bad: List[Tuple[ast.AST, str]] = []
+    # locals that hold a raw payload value (assigned from <e>.args[i] without a total conversion such as str())
+    rawv: Set[str] = set()
+    strv: Set[str] = set()
+    for st in (x for st0 in h.body for x in walk_no_nested(st0)):
+        if isinstance(st, ast.Assign) and len(st.targets) == 1 and isinstance(st.targets[0], ast.Name):
+            v = st.value
+            if isinstance(v, ast.Subscript) and norm(v.value) == f"{e}.args":
+                rawv.add(st.targets[0].id)
+            else:
+                strv.add(st.targets[0].id)
+    rawv -= strv  # a name that is also given a converted value on another path: undecidable here, do not report
     for n in (x for st in h.body for x in walk_no_nested(st)):
+        if isinstance(n, ast.Attribute) and isinstance(parent(n), ast.Call) and parent(n).func is n and isinstance(n.value, ast.Name) and n.value.id in rawv:  # type: ignore[union-attr]
+            bad.append((n, f"`{short(parent(n))}` calls a str method on `{n.value.id}`, which holds the raw exception payload: a non-string payload (raise MyErr(123)) turns the error into AttributeError"))
+        if isinstance(n, ast.BinOp) and any(isinstance(x, ast.Name) and x.id in rawv for x in (n.left, n.right)):
+            bad.append((n, f"`{short(n)}` concatenates the raw exception payload"))
         # <e>.args[i] must be guarded by a non-empty test
         if isinstance(n, ast.Subscript) and norm(n.value) == f"{e}.args" and not isinstance(n.slice, ast.Slice):
             atoms = cond_atoms(n)
